@@ -263,6 +263,14 @@ Proof.
   inversion E. unfold clear_deferred. congruence.
 Qed.
 
+Theorem encode_msg_injective_fields m1 m2 : wf_msg m1 -> wf_msg m2 ->
+  encode_msg m1 = encode_msg m2 ->
+  m_id m1 = m_id m2 /\ m_body m1 = m_body m2 /\ m_ts m1 = m_ts m2 /\ m_attempts m1 = m_attempts m2.
+Proof.
+  intros H1 H2 E. pose proof (encode_msg_injective m1 m2 H1 H2 E) as H.
+  unfold clear_deferred in H. inversion H. auto.
+Qed.
+
 Lemma encode_msg_wf m : wf_msg m -> wf_bytes (encode_msg m).
 Proof.
   intros (Hid & Hwid & Hwb & _). unfold encode_msg.
@@ -480,4 +488,469 @@ Section Transport.
   Proof.
     intros H E. apply stream_chunked; [assumption|]. rewrite codec_roundtrip. assumption.
   Qed.
+
+  (* END TO END for one delivery: a published message that has gone through any sequence
+     of queues / copies / requeues / earlier deliveries, sent between any other frames
+     (responses, heartbeats, other messages) over any transport, is decoded by the
+     consumer with the id, body and timestamp of the publish *)
+  Theorem end_to_end m p before after writes :
+    wf_msg m -> len (m_body m) + 30 < two31 ->
+    Forall frame_ok before -> Forall frame_ok after ->
+    exists m',
+      apply_path p m = DecOk m' /\
+      (concat writes = flat_map frame_of (before ++ [(nsqd_frameTypeMessage, encode_msg m')] ++ after) ->
+       exists f, rrun_chunks rinit (rx (tx writes)) = (rinit, before ++ [f] ++ after) /\
+                 exists got, recv_message f = DecOk got /\ same_envelope m got /\
+                             m_attempts got = m_attempts m').
+  Proof.
+    intros Hwf Hl Hb Ha. destruct (path_preserves p m Hwf) as (m' & Ep & Wm' & Sm').
+    exists m'. split; [assumption|]. intros Ew.
+    exists (nsqd_frameTypeMessage, encode_msg m').
+    assert (Hf : frame_ok (nsqd_frameTypeMessage, encode_msg m')).
+    { apply send_message_frame_ok; [assumption|]. destruct Sm' as (_ & -> & _). assumption. }
+    split.
+    - apply transport_stream; [|assumption].
+      apply Forall_app. split; [assumption|]. apply Forall_app. split; [|assumption]. constructor; [assumption|constructor].
+    - exists (clear_deferred m'). unfold recv_message. cbn [fst snd]. rewrite Z.eqb_refl.
+      split; [apply decode_encode_msg; assumption|]. split; [|reflexivity].
+      unfold same_envelope, clear_deferred in *. cbn [m_id m_body m_ts]. assumption.
+  Qed.
 End Transport.
+
+(* ================================================================== PUB / MPUB bodies *)
+Lemma read_len_enc n rest : - two31 <= n < two31 ->
+  read_len (be_enc 4 (u32_of_z n) ++ rest) = Some (n, rest).
+Proof.
+  intros H. unfold read_len. rewrite len_app. unfold len at 1. rewrite be_enc_length.
+  pose proof (len_nonneg rest). destruct (Z.ltb_spec (Z.of_nat 4 + len rest) 4); [lia|].
+  rewrite firstn_app_exact, skipn_app_exact by apply be_enc_length.
+  rewrite be4_roundtrip by assumption. reflexivity.
+Qed.
+
+Lemma read_full_app b rest : read_full (len b) (b ++ rest) = Some (b, rest).
+Proof.
+  unfold read_full. rewrite len_app. pose proof (len_nonneg rest).
+  destruct (Z.ltb_spec (len b + len rest) (len b)); [lia|].
+  unfold len. rewrite Nat2Z.id. rewrite firstn_app_exact, skipn_app_exact by reflexivity. reflexivity.
+Qed.
+
+Lemma read_len_inv s n s1 : wf_bytes s -> read_len s = Some (n, s1) ->
+  s = be_enc 4 (u32_of_z n) ++ s1 /\ - two31 <= n < two31 /\ len s = 4 + len s1.
+Proof.
+  intros Hwf. unfold read_len. destruct (Z.ltb_spec (len s) 4); [discriminate|]. intros E.
+  assert (E' : n = i32_of_u32 (be_dec (firstn 4 s)) /\ s1 = skipn 4 s) by (split; congruence).
+  clear E. destruct E' as [-> ->].
+  assert (L4 : length (firstn 4 s) = 4%nat) by (rewrite firstn_length_le; unfold len in *; lia).
+  pose proof (be_dec_bound _ (wf_firstn 4 s Hwf)) as Hb. rewrite L4 in Hb.
+  split; [|split].
+  - rewrite u32_i32_roundtrip by exact Hb.
+    pose proof (be_enc_dec _ (wf_firstn 4 s Hwf)) as E. rewrite L4 in E. rewrite E.
+    symmetry. apply firstn_skipn.
+  - unfold i32_of_u32, two31, two32. destruct (Z.ltb_spec (Z.of_N (be_dec (firstn 4 s)) mod 4294967296) 2147483648); lia.
+  - unfold len in *. rewrite skipn_length. lia.
+Qed.
+
+Lemma read_full_inv n s b s2 : 0 <= n -> read_full n s = Some (b, s2) -> s = b ++ s2 /\ len b = n.
+Proof.
+  intros Hn. unfold read_full. destruct (Z.ltb_spec (len s) n); [discriminate|]. intros E.
+  assert (E' : b = firstn (Z.to_nat n) s /\ s2 = skipn (Z.to_nat n) s) by (split; congruence).
+  clear E. destruct E' as [-> ->].
+  split; [symmetry; apply firstn_skipn|]. unfold len in *. rewrite firstn_length_le; lia.
+Qed.
+
+Definition body_ok (max_msg : Z) (b : bytes) : Prop := 1 <= len b <= max_msg /\ len b < two31.
+
+Lemma encode_pub_body_len b : len (encode_pub_body b) = 4 + len b.
+Proof. unfold encode_pub_body. rewrite len_app. unfold len at 1. rewrite be_enc_length. lia. Qed.
+
+(* PUB / DPUB body *)
+Theorem read_pub_body_encode max_msg b rest : body_ok max_msg b ->
+  read_pub_body max_msg (encode_pub_body b ++ rest) = RdOk b rest.
+Proof.
+  intros ((H1 & H2) & H3). unfold read_pub_body, encode_pub_body. rewrite <- app_assoc.
+  rewrite read_len_enc by (unfold two31 in *; lia).
+  destruct (Z.leb_spec (len b) 0); [lia|]. destruct (Z.gtb_spec (len b) max_msg); [lia|].
+  rewrite read_full_app. reflexivity.
+Qed.
+
+Theorem read_pub_body_inv max_msg s b rest : wf_bytes s -> read_pub_body max_msg s = RdOk b rest ->
+  s = encode_pub_body b ++ rest /\ body_ok max_msg b.
+Proof.
+  intros Hwf. unfold read_pub_body. destruct (read_len s) as [[n s1]|] eqn:E; [|discriminate].
+  destruct (read_len_inv _ _ _ Hwf E) as (Es & Hn & _).
+  destruct (Z.leb_spec n 0); [discriminate|]. destruct (Z.gtb_spec n max_msg); [discriminate|].
+  destruct (read_full n s1) as [[body r]|] eqn:F; [|discriminate]. intros [= -> ->].
+  assert (Hn0 : 0 <= n) by lia.
+  destruct (read_full_inv _ _ _ _ Hn0 F) as (E1 & L). subst s1.
+  split.
+  - unfold encode_pub_body. rewrite L. rewrite <- app_assoc. exact Es.
+  - unfold body_ok. lia.
+Qed.
+
+(* MPUB *)
+Lemma encode_mpub_msgs_cons b r : encode_mpub_msgs (b :: r) = encode_pub_body b ++ encode_mpub_msgs r.
+Proof. reflexivity. Qed.
+
+Lemma encode_mpub_msgs_len max_msg bodies : Forall (body_ok max_msg) bodies ->
+  5 * Z.of_nat (length bodies) <= len (encode_mpub_msgs bodies).
+Proof.
+  induction 1 as [|b r Hb _ IH]; [unfold len; cbn; lia|].
+  rewrite encode_mpub_msgs_cons, len_app, encode_pub_body_len. destruct Hb as ((? & ?) & ?).
+  cbn [length]. lia.
+Qed.
+
+Lemma read_mpub_msgs_enc max_msg bodies : forall fuel rest, (length bodies <= fuel)%nat ->
+  Forall (body_ok max_msg) bodies ->
+  read_mpub_msgs fuel max_msg (Z.of_nat (length bodies)) (encode_mpub_msgs bodies ++ rest) = RdOk bodies rest.
+Proof.
+  induction bodies as [|b r IH]; intros fuel rest Hf Hall.
+  - destruct fuel; reflexivity.
+  - inversion Hall as [|? ? Hb Hr]; subst. destruct Hb as ((H1 & H2) & H3).
+    destruct fuel as [|f]; [cbn in Hf; lia|]. cbn [length] in *.
+    cbn [read_mpub_msgs]. destruct (Z.leb_spec (Z.of_nat (S (length r))) 0); [lia|].
+    rewrite encode_mpub_msgs_cons. unfold encode_pub_body. rewrite <- !app_assoc.
+    rewrite read_len_enc by (unfold two31 in *; lia).
+    destruct (Z.leb_spec (len b) 0); [lia|]. destruct (Z.gtb_spec (len b) max_msg); [lia|].
+    rewrite read_full_app.
+    replace (Z.of_nat (S (length r)) - 1) with (Z.of_nat (length r)) by lia.
+    rewrite IH by (assumption || lia). reflexivity.
+Qed.
+
+Definition batch_ok (max_msg max_body : Z) (bodies : list bytes) : Prop :=
+  bodies <> [] /\ Forall (body_ok max_msg) bodies /\
+  Z.of_nat (length bodies) <= Z.quot (max_body - 4) 5 /\ Z.of_nat (length bodies) < two31.
+
+(* readMPUB accepts every batch within the limits and returns exactly its bodies, in order *)
+Theorem read_mpub_encode max_msg max_body bodies rest : batch_ok max_msg max_body bodies ->
+  read_mpub max_msg max_body (encode_mpub bodies ++ rest) = RdOk bodies rest.
+Proof.
+  intros (Hne & Hall & Hcnt & H31). unfold read_mpub, encode_mpub. rewrite <- app_assoc.
+  rewrite read_len_enc by (unfold two31 in *; lia).
+  assert (0 < Z.of_nat (length bodies)) by (destruct bodies; [congruence|cbn; lia]).
+  destruct (Z.leb_spec (Z.of_nat (length bodies)) 0); [lia|].
+  destruct (Z.gtb_spec (Z.of_nat (length bodies)) (Z.quot (max_body - 4) 5)); [lia|]. cbn [orb].
+  apply read_mpub_msgs_enc; [|assumption].
+  pose proof (encode_mpub_msgs_len _ _ Hall). unfold len in *. rewrite app_length. lia.
+Qed.
+
+(* the fuel of the loop is never exhausted *)
+Lemma read_mpub_msgs_no_fuel max_msg : forall fuel n s, (length s < fuel)%nat ->
+  read_mpub_msgs fuel max_msg n s <> RdErr E_FUEL.
+Proof.
+  induction fuel as [|f IH]; intros n s Hl; [lia|]. cbn [read_mpub_msgs].
+  destruct (Z.leb_spec n 0); [discriminate|].
+  unfold read_len. destruct (Z.ltb_spec (len s) 4); [discriminate|].
+  destruct (Z.leb_spec (i32_of_u32 (be_dec (firstn 4 s))) 0); [discriminate|].
+  destruct (Z.gtb_spec (i32_of_u32 (be_dec (firstn 4 s))) max_msg); [discriminate|].
+  unfold read_full. destruct (Z.ltb_spec (len (skipn 4 s)) (i32_of_u32 (be_dec (firstn 4 s)))); [discriminate|].
+  match goal with |- context [read_mpub_msgs f max_msg ?n' ?s'] =>
+    pose proof (IH n' s') as Hih; destruct (read_mpub_msgs f max_msg n' s') as [more r|e] eqn:E end.
+  - discriminate.
+  - intros X. inversion X; subst. apply Hih; [|reflexivity].
+    unfold len in *. rewrite !skipn_length. lia.
+Qed.
+
+Theorem read_mpub_never_fuel max_msg max_body s : read_mpub max_msg max_body s <> RdErr E_FUEL.
+Proof.
+  unfold read_mpub. destruct (read_len s) as [[n s1]|]; [|discriminate].
+  destruct ((n <=? 0) || (n >? Z.quot (max_body - 4) 5)); [discriminate|].
+  apply read_mpub_msgs_no_fuel. lia.
+Qed.
+
+Lemma read_mpub_msgs_inv max_msg : forall fuel n s bodies rest, wf_bytes s -> 0 <= n ->
+  read_mpub_msgs fuel max_msg n s = RdOk bodies rest ->
+  s = encode_mpub_msgs bodies ++ rest /\ Z.of_nat (length bodies) = n /\ Forall (body_ok max_msg) bodies.
+Proof.
+  induction fuel as [|f IH]; intros n s bodies rest Hwf Hn; cbn [read_mpub_msgs].
+  - destruct (Z.leb_spec n 0); [|discriminate]. intros E; inversion E; subst. cbn. repeat split; [lia|constructor].
+  - destruct (Z.leb_spec n 0).
+    + intros E; inversion E; subst. cbn. repeat split; [lia|constructor].
+    + destruct (read_len s) as [[sz s1]|] eqn:E1; [|discriminate].
+      destruct (read_len_inv _ _ _ Hwf E1) as (Es & Hsz & _).
+      destruct (Z.leb_spec sz 0); [discriminate|]. destruct (Z.gtb_spec sz max_msg); [discriminate|].
+      destruct (read_full sz s1) as [[body s2]|] eqn:E2; [|discriminate].
+      assert (Hsz0 : 0 <= sz) by lia.
+      destruct (read_full_inv _ _ _ _ Hsz0 E2) as (Es1 & Lb). subst s1.
+      destruct (read_mpub_msgs f max_msg (n - 1) s2) as [more r|e] eqn:E3; [|discriminate].
+      intros [= <- <-].
+      assert (Hwf2 : wf_bytes s2).
+      { rewrite Es in Hwf. apply wf_bytes_app in Hwf. destruct Hwf as [_ Hwf]. apply wf_bytes_app in Hwf. tauto. }
+      assert (Hn1 : 0 <= n - 1) by lia.
+      destruct (IH _ _ _ _ Hwf2 Hn1 E3) as (Es2 & Hlen & Hall).
+      split; [|split].
+      * rewrite encode_mpub_msgs_cons. unfold encode_pub_body. rewrite Lb. rewrite <- !app_assoc. rewrite <- Es2. exact Es.
+      * cbn [length]. lia.
+      * constructor; [|assumption]. unfold body_ok. lia.
+Qed.
+
+(* ... and accepts nothing else: whatever readMPUB returns as messages is exactly what the
+   input spells out, within the limits *)
+Theorem read_mpub_inv max_msg max_body s bodies rest : wf_bytes s ->
+  read_mpub max_msg max_body s = RdOk bodies rest ->
+  s = encode_mpub bodies ++ rest /\ batch_ok max_msg max_body bodies.
+Proof.
+  intros Hwf. unfold read_mpub. destruct (read_len s) as [[n s1]|] eqn:E1; [|discriminate].
+  destruct (read_len_inv _ _ _ Hwf E1) as (Es & Hn & _).
+  destruct (Z.leb_spec n 0); [discriminate|].
+  destruct (Z.gtb_spec n (Z.quot (max_body - 4) 5)); [discriminate|]. cbn [orb].
+  intros E.
+  assert (Hwf1 : wf_bytes s1) by (rewrite Es in Hwf; apply wf_bytes_app in Hwf; tauto).
+  assert (Hn0 : 0 <= n) by lia.
+  destruct (read_mpub_msgs_inv _ _ _ _ _ _ Hwf1 Hn0 E) as (Es1 & Hlen & Hall).
+  split.
+  - unfold encode_mpub. rewrite Hlen. rewrite <- app_assoc. rewrite <- Es1. exact Es.
+  - unfold batch_ok. split; [destruct bodies; [cbn in Hlen; lia|discriminate]|].
+    split; [assumption|]. lia.
+Qed.
+
+(* all or nothing: the topic's queue after an MPUB is either untouched (any rejection) or
+   extended by exactly the bodies spelled out by the input, all of them, in order *)
+Theorem mpub_all_or_nothing max_msg max_body queue s : wf_bytes s ->
+  let r := read_mpub max_msg max_body s in
+  (exists e, r = RdErr e /\ publish_effect queue r = queue) \/
+  (exists bodies rest, r = RdOk bodies rest /\ publish_effect queue r = queue ++ bodies /\
+     s = encode_mpub bodies ++ rest /\ batch_ok max_msg max_body bodies).
+Proof.
+  intros Hwf r. subst r. destruct (read_mpub max_msg max_body s) as [bodies rest|e] eqn:E.
+  - right. exists bodies, rest. destruct (read_mpub_inv _ _ _ _ _ Hwf E). auto.
+  - left. exists e. auto.
+Qed.
+
+(* the batch's total size bounds its count: a batch whose encoding fits max_body is never
+   refused by the count check *)
+Lemma encode_mpub_len bodies : len (encode_mpub bodies) = 4 + len (encode_mpub_msgs bodies).
+Proof. unfold encode_mpub. rewrite len_app. unfold len at 1. rewrite be_enc_length. lia. Qed.
+
+Theorem count_check_implied max_msg max_body bodies :
+  Forall (body_ok max_msg) bodies -> len (encode_mpub bodies) <= max_body ->
+  Z.of_nat (length bodies) <= Z.quot (max_body - 4) 5.
+Proof.
+  intros Hall Hl. rewrite encode_mpub_len in Hl. pose proof (encode_mpub_msgs_len _ _ Hall).
+  apply Z.quot_le_lower_bound; lia.
+Qed.
+
+(* protocolV2.MPUB: size prefix, then readMPUB *)
+Theorem mpub_tcp_encode max_msg max_body bodies rest :
+  bodies <> [] -> Forall (body_ok max_msg) bodies ->
+  len (encode_mpub bodies) <= max_body -> len (encode_mpub bodies) < two31 ->
+  mpub_tcp max_msg max_body (encode_mpub_tcp bodies ++ rest) = RdOk bodies rest.
+Proof.
+  intros Hne Hall Hfit H31. unfold mpub_tcp, encode_mpub_tcp. rewrite <- app_assoc.
+  pose proof (encode_mpub_len bodies). pose proof (len_nonneg (encode_mpub_msgs bodies)).
+  rewrite read_len_enc by (unfold two31 in *; lia).
+  destruct (Z.leb_spec (len (encode_mpub bodies)) 0); [lia|].
+  destruct (Z.gtb_spec (len (encode_mpub bodies)) max_body); [lia|].
+  apply read_mpub_encode. unfold batch_ok. split; [assumption|]. split; [assumption|].
+  pose proof (count_check_implied _ _ _ Hall Hfit). pose proof (encode_mpub_msgs_len _ _ Hall). lia.
+Qed.
+
+Theorem mpub_tcp_inv max_msg max_body s bodies rest : wf_bytes s ->
+  mpub_tcp max_msg max_body s = RdOk bodies rest ->
+  exists n, s = be_enc 4 (u32_of_z n) ++ encode_mpub bodies ++ rest /\ batch_ok max_msg max_body bodies.
+Proof.
+  intros Hwf. unfold mpub_tcp. destruct (read_len s) as [[n s1]|] eqn:E1; [|discriminate].
+  destruct (read_len_inv _ _ _ Hwf E1) as (Es & Hn & _).
+  destruct (Z.leb_spec n 0); [discriminate|]. destruct (Z.gtb_spec n max_body); [discriminate|].
+  intros E. assert (Hwf1 : wf_bytes s1) by (rewrite Es in Hwf; apply wf_bytes_app in Hwf; tauto).
+  destruct (read_mpub_inv _ _ _ _ _ Hwf1 E) as (Es1 & Hb). exists n. rewrite <- Es1. auto.
+Qed.
+
+(* ================================================================== HTTP publish bodies *)
+Definition blocks_ok (max_msg : Z) (l : list bytes) : Prop := Forall (fun f => len f <= max_msg) l.
+Definition has_big (max_msg : Z) (l : list bytes) : Prop := Exists (fun f => max_msg < len f) l.
+
+Lemma blocks_ok_not_big max_msg l : blocks_ok max_msg l -> has_big max_msg l -> False.
+Proof.
+  unfold blocks_ok, has_big. intros F E. apply Exists_exists in E. destruct E as (x & Hin & Hx).
+  rewrite Forall_forall in F. specialize (F x Hin). lia.
+Qed.
+
+Lemma split_nonempty_cons_nil d rest : filter nonempty ([] :: split_on d rest) = split_nonempty d rest.
+Proof. reflexivity. Qed.
+
+Lemma text_loop_spec max_msg read_max : forall fuel total inp,
+  (length inp < fuel)%nat -> total + len inp <= read_max ->
+  match text_loop fuel max_msg read_max total inp with
+  | HOk l => l = split_nonempty nl inp /\ total + len inp < read_max /\ blocks_ok max_msg l
+  | HErr e => (e = H_BODY_TOO_BIG /\ total + len inp = read_max) \/
+              (e = H_MSG_TOO_BIG /\ has_big max_msg (split_nonempty nl inp))
+  end.
+Proof.
+  induction fuel as [|f IH]; intros total inp Hf Hle; [lia|].
+  cbn [text_loop]. destruct (read_bytes nl inp) as [[line eof] rest] eqn:Hrb.
+  destruct (read_bytes_spec nl inp _ _ _ Hrb)
+    as [(He & Hrest & Hl & Hnin & Hsp) | (He & pre & Hl & Hnin & Hinp & Hsp & Hlt)]; subst eof.
+  - (* the last block: no newline in it *)
+    subst line rest. destruct (Z.eqb_spec (total + len inp) read_max) as [E|NE]; [left; auto|].
+    rewrite trim_unterminated by assumption. unfold split_nonempty. rewrite Hsp.
+    destruct inp as [|b r].
+    + change (len []) with 0 in *. cbn. repeat split; [lia|constructor].
+    + cbn [filter nonempty].
+      destruct (Z.gtb_spec (len (b :: r)) max_msg).
+      * right. split; [reflexivity|]. constructor. lia.
+      * repeat split; [lia|]. constructor; [lia|constructor].
+  - (* a block terminated by a newline *)
+    subst line. assert (Hlen : len inp = len pre + 1 + len rest).
+    { rewrite Hinp. rewrite len_app. unfold len. cbn [length]. lia. }
+    assert (Hlb : len (pre ++ [nl]) = len pre + 1) by (rewrite len_app; reflexivity).
+    pose proof (len_nonneg rest) as Hr0.
+    rewrite Hlb. destruct (Z.eqb_spec (total + (len pre + 1)) read_max) as [E|NE]; [left; split; [reflexivity|lia]|].
+    rewrite trim_terminated. unfold split_nonempty. rewrite Hsp.
+    assert (Hf' : (length rest < f)%nat) by lia.
+    assert (Hle' : total + (len pre + 1) + len rest <= read_max) by lia.
+    specialize (IH (total + (len pre + 1)) rest Hf' Hle').
+    destruct pre as [|b r].
+    + rewrite split_nonempty_cons_nil.
+      destruct (text_loop f max_msg read_max (total + (len [] + 1)) rest) as [l|e].
+      * destruct IH as (E1 & E2 & E3). repeat split; [assumption|lia|assumption].
+      * destruct IH as [(E1 & E2)|(E1 & E2)]; [left; split; [assumption|lia]|right; auto].
+    + cbn [filter nonempty]. fold (split_nonempty nl rest).
+      destruct (Z.gtb_spec (len (b :: r)) max_msg).
+      * right. split; [reflexivity|]. constructor. lia.
+      * destruct (text_loop f max_msg read_max (total + (len (b :: r) + 1)) rest) as [l|e].
+        -- destruct IH as (E1 & E2 & E3). subst l. repeat split; [lia|]. constructor; [lia|assumption].
+        -- destruct IH as [(E1 & E2)|(E1 & E2)]; [left; split; [assumption|lia]|right].
+           split; [assumption|]. apply Exists_cons_tl. assumption.
+Qed.
+
+(* text /mpub: what is published is exactly the non-empty newline-separated blocks of the
+   body (a last block without trailing newline included), when the body and every block
+   are within the limits; otherwise nothing is published *)
+Theorem http_mpub_text_spec max_msg max_body cl body : 0 <= max_body -> cl <= max_body ->
+  match http_mpub_text max_msg max_body cl body with
+  | HOk l => l = split_nonempty nl body /\ len body <= max_body /\ blocks_ok max_msg l
+  | HErr e => (e = H_BODY_TOO_BIG /\ max_body < len body) \/
+              (e = H_MSG_TOO_BIG /\
+               has_big max_msg (split_nonempty nl (firstn (Z.to_nat (max_body + 1)) body)))
+  end.
+Proof.
+  intros H0 Hcl. unfold http_mpub_text. destruct (Z.gtb_spec cl max_body); [lia|].
+  set (n := Z.to_nat (max_body + 1)). set (data := firstn n body).
+  assert (Hd : len data <= max_body + 1) by (unfold len, data; pose proof (firstn_le_length n body); lia).
+  pose proof (text_loop_spec max_msg (max_body + 1) (S (length data)) 0 data ltac:(lia) ltac:(lia)) as SP.
+  destruct (text_loop (S (length data)) max_msg (max_body + 1) 0 data) as [l|e].
+  - destruct SP as (E1 & E2 & E3).
+    assert (Hdb : data = body) by (apply firstn_short; unfold len, data, n in *; lia).
+    rewrite Hdb in *. repeat split; [assumption|lia|assumption].
+  - destruct SP as [(E1 & E2)|(E1 & E2)]; [left|right; auto]. split; [assumption|].
+    unfold len, data, n in *. pose proof (firstn_le_length (Z.to_nat (max_body + 1)) body).
+    destruct (Nat.le_gt_cases (Z.to_nat (max_body + 1)) (length body)); [lia|].
+    rewrite firstn_all2 in E2 by lia. lia.
+Qed.
+
+Theorem http_mpub_text_accepts max_msg max_body cl body : 0 <= max_body -> cl <= max_body ->
+  len body <= max_body -> blocks_ok max_msg (split_nonempty nl body) ->
+  http_mpub_text max_msg max_body cl body = HOk (split_nonempty nl body).
+Proof.
+  intros H0 Hcl Hb Hok. pose proof (http_mpub_text_spec max_msg max_body cl body H0 Hcl) as SP.
+  destruct (http_mpub_text max_msg max_body cl body) as [l|e].
+  - destruct SP as (-> & _). reflexivity.
+  - exfalso. destruct SP as [(_ & E)|(_ & E)]; [lia|].
+    rewrite firstn_all2 in E by (unfold len in *; lia). eapply blocks_ok_not_big; eassumption.
+Qed.
+
+Theorem http_mpub_text_rejects max_msg max_body cl body : 0 <= max_body ->
+  max_body < cl \/ max_body < len body \/ has_big max_msg (split_nonempty nl body) ->
+  exists e, http_mpub_text max_msg max_body cl body = HErr e /\
+            http_effect [] (http_mpub_text max_msg max_body cl body) = [].
+Proof.
+  intros H0 Hbad. destruct (Z.gtb_spec cl max_body) as [Hgt|Hle].
+  - unfold http_mpub_text. destruct (Z.gtb_spec cl max_body); [|lia]. eexists; split; reflexivity.
+  - pose proof (http_mpub_text_spec max_msg max_body cl body H0 Hle) as SP.
+    destruct (http_mpub_text max_msg max_body cl body) as [l|e]; [|eexists; split; reflexivity].
+    exfalso. destruct SP as (-> & Hl & Hok). destruct Hbad as [?|[?|Hbig]]; [lia|lia|].
+    eapply blocks_ok_not_big; eassumption.
+Qed.
+
+(* a batch written as newline-joined records, with or without a final newline *)
+Theorem http_mpub_text_join max_msg max_body rs : 0 <= max_body ->
+  Forall (good_record nl) rs -> blocks_ok max_msg rs -> len (join nl rs) + 1 <= max_body ->
+  http_mpub_text max_msg max_body (len (join nl rs)) (join nl rs) = HOk rs /\
+  http_mpub_text max_msg max_body (len (join nl rs ++ [nl])) (join nl rs ++ [nl]) = HOk rs.
+Proof.
+  intros H0 Hg Hok Hl.
+  assert (L2 : len (join nl rs ++ [nl]) = len (join nl rs) + 1) by (rewrite len_app; reflexivity).
+  split.
+  - rewrite http_mpub_text_accepts; rewrite ?split_nonempty_join by assumption; auto; lia.
+  - rewrite http_mpub_text_accepts; rewrite ?split_nonempty_join_terminated by assumption; auto; lia.
+Qed.
+
+(* /pub *)
+Theorem http_pub_spec max_msg cl body : 0 <= max_msg -> cl <= max_msg ->
+  http_pub max_msg cl body =
+    if max_msg <? len body then HErr H_MSG_TOO_BIG
+    else if len body =? 0 then HErr H_MSG_EMPTY else HOk [body].
+Proof.
+  intros H0 Hcl. unfold http_pub. destruct (Z.gtb_spec cl max_msg); [lia|].
+  set (n := Z.to_nat (max_msg + 1)).
+  pose proof (firstn_le_length n body) as Hle.
+  destruct (Z.ltb_spec max_msg (len body)) as [Hbig|Hfit].
+  - assert (E : len (firstn n body) = max_msg + 1)
+      by (unfold len in *; rewrite firstn_length_le; unfold n; lia).
+    rewrite E, Z.eqb_refl. reflexivity.
+  - assert (E : firstn n body = body) by (apply firstn_all2; unfold len, n in *; lia).
+    rewrite E. destruct (Z.eqb_spec (len body) (max_msg + 1)); [lia|]. destruct (len body =? 0); reflexivity.
+Qed.
+
+(* binary /mpub is readMPUB on the request body *)
+Theorem http_mpub_binary_accepts max_msg max_body cl bodies : cl <= max_body ->
+  batch_ok max_msg max_body bodies ->
+  http_mpub_binary max_msg max_body cl (encode_mpub bodies) = HOk bodies.
+Proof.
+  intros Hcl Hb. unfold http_mpub_binary. destruct (Z.gtb_spec cl max_body); [lia|].
+  rewrite <- (app_nil_r (encode_mpub bodies)). rewrite read_mpub_encode by assumption. reflexivity.
+Qed.
+
+Theorem http_mpub_binary_inv max_msg max_body cl body bodies : wf_bytes body ->
+  http_mpub_binary max_msg max_body cl body = HOk bodies ->
+  exists rest, body = encode_mpub bodies ++ rest /\ batch_ok max_msg max_body bodies.
+Proof.
+  intros Hwf. unfold http_mpub_binary. destruct (cl >? max_body); [discriminate|].
+  destruct (read_mpub max_msg max_body body) as [bs rest|e] eqn:E; [|destruct e; discriminate].
+  intros [= <-]. exists rest. eapply read_mpub_inv; eassumption.
+Qed.
+
+(* ================================================================== message ids *)
+Lemma hex_digit_range a : 0 <= a < 16 -> is_hex_byte (Z.to_N (hex_digit a)) = true /\ 0 <= hex_digit a.
+Proof.
+  intros H. unfold hex_digit, is_hex_byte. destruct (Z.ltb_spec a 10); split; lia.
+Qed.
+
+Lemma hex_digits_hex k : forall u,
+  forallb is_hex_byte (map Z.to_N (hex_digits k u)) = true /\ Forall (fun c => 0 <= c) (hex_digits k u).
+Proof.
+  induction k as [|k IH]; intros u; cbn [hex_digits]; [split; [reflexivity|constructor]|].
+  rewrite map_app, forallb_app. destruct (IH (u / 16)) as [H1 H2].
+  destruct (hex_digit_range (u mod 16) ltac:(lia)) as [H3 H4].
+  split; [rewrite H1; cbn; rewrite H3; reflexivity|].
+  apply Forall_app. split; [assumption|]. constructor; [assumption|constructor].
+Qed.
+
+Lemma is_hex_byte_lt c : is_hex_byte c = true -> (c < 256)%N.
+Proof. unfold is_hex_byte. lia. Qed.
+
+(* a message id is 16 lower-case hex characters *)
+Theorem id_of_guid_hex16 g : id_is_hex16 (id_of_guid g) = true.
+Proof.
+  unfold id_is_hex16, id_of_guid. rewrite map_length, hex_length. cbn [Nat.eqb andb].
+  apply (proj1 (hex_digits_hex 16 (g mod two64))).
+Qed.
+
+Theorem id_of_guid_wf g : length (id_of_guid g) = id_len /\ wf_bytes (id_of_guid g).
+Proof.
+  pose proof (id_of_guid_hex16 g) as H. unfold id_is_hex16 in H. apply andb_true_iff in H. destruct H as [Hl Hh].
+  split; [apply Nat.eqb_eq in Hl; exact Hl|].
+  unfold wf_bytes. rewrite Forall_forall. rewrite forallb_forall in Hh. intros x Hx. apply is_hex_byte_lt. auto.
+Qed.
+
+Lemma map_of_N_to_N l : Forall (fun c => 0 <= c) l -> map Z.of_N (map Z.to_N l) = l.
+Proof. induction 1; cbn; [reflexivity|]. rewrite Z2N.id by assumption. congruence. Qed.
+
+(* distinct guids have distinct ids *)
+Theorem id_of_guid_injective a b : - two63 <= a < two63 -> - two63 <= b < two63 ->
+  id_of_guid a = id_of_guid b -> a = b.
+Proof.
+  intros Ha Hb E. apply hex_injective; try assumption.
+  apply (f_equal (map Z.of_N)) in E. unfold id_of_guid in E.
+  rewrite !map_of_N_to_N in E by apply (proj2 (hex_digits_hex 16 _)). exact E.
+Qed.
